@@ -548,7 +548,9 @@ func (g *progGen) rowCount() string {
 	if len(g.bound) > 0 && rng.Intn(4) == 0 {
 		return pick(g.bound)
 	}
-	return pick([]string{"1", "5", "10", "100", "0", "0x10"})
+	// integer literals of every spelling and size are row counts (the lexer bounds only hexadecimal ones)
+	return pick([]string{"1", "5", "10", "100", "0", "0x10", "007", "0XfF", "18446744073709551615", "18446744073709551616",
+		"99999999999999999999", "000000000000000000000000001", "0xffffffffffffffff", "9223372036854775808"})
 }
 
 func (g *progGen) tableName() string {
@@ -856,6 +858,7 @@ func genCompileCases(tier string, emit func(op string, fields ...string)) {
 		"T | where a.$left == 1", "T | project x = a.b.$right", "T | extend y = strcat(tolower(t.$left), 'x')", "T | join (U | where u.$left == 1) on k",
 		"T | take 1E3", "T | take 1e3", "T | limit 2E+2", "T | top 5E1 by x", "T | take 0E0", "T | take 1.5", "T | take .5", "T | take 1.", "T | take '5'",
 		"T | join (U | take 1E3) on k", "T | take 0x1E3", "T | take 007", "T | top 0x10 by a",
+		"T | take 18446744073709551616", "T | top 100000000000000000000 by a", "T | join kind=inner (U | take 99999999999999999999) on a | count", "T | limit 18446744073709551615",
 		"T | where `$left`.a == 1", "T | where a.`$left` == 1", "T | join (U) on a.$left == $right.b", "T | sort by $right.a", "T | take $left",
 		"T | summarize count() by $left.k", "T | top 3 by x.$right", "let v = a.$left; T", "T | where f(g(h($right.x)))",
 	} {
